@@ -198,6 +198,8 @@ func buildUniverse() []*entry {
 		wep("cali1", lbl(), []string{"p0", "p2", "p1"}, []string{"10.0.0.6/32"}, port("http", "tcp", 81)),
 		// INVALID (schema): named port with protocol icmp
 		wep("cali1", lbl("a", "x", "role", "db"), []string{"p1", "p2"}, []string{"10.0.0.3/32"}, port("dns", "icmp", 53)),
+		// the same profile id listed TWICE (first occurrence wins for label inheritance; fix c40ff03)
+		wep("cali1", lbl("b", "2"), []string{"p0", "p1", "p0"}, []string{"10.0.0.3/32"}, port("http", "tcp", 80)),
 	)
 	markInvalid("wep:w1", 6)
 	add("wep:w2", wk(remote1, "w2"),
@@ -337,6 +339,7 @@ func buildUniverse() []*entry {
 	add("netset:n1", model.NetworkSetKey{Name: "n1"},
 		ns(lbl("a", "x"), nil, "12.0.0.0/24"), // duplicate CIDR with n0
 		ns(lbl("a", "y"), []string{"p1"}, "12.0.0.128/25", "fd00:1::/64"),
+		ns(lbl("b", "1"), []string{"p1", "p1", "p0"}, "14.0.0.0/24"), // duplicate profile id
 	)
 	// ---- IP pools, blocks, nodes, VXLAN tunnel config ----
 	add("pool:10.0", model.IPPoolKey{CIDR: netip.MustParsePrefix("10.0.0.0/16")},
